@@ -688,6 +688,12 @@ fn check_doc(spec: &DocSpec, target: &str, obs: &mut Obs) -> CheckResult {
     let expected_json = render(spec, target, spec.controller_array, false);
     let rewrite_is_a_document = IotaDocument::from_json(&expected_json.to_string()).is_ok();
     match result {
+      // the rewritten document is well formed (the target only occurs where no identifier clashes): it is demanded
+      Err(e) if rewrite_is_a_document => vfail!(
+        obs,
+        "other-did-unpack-fails",
+        "into_iota_document({target}) failed although the rewrite is a well-formed document ({target} already occurs as a foreign DID, without clashing): {e}"
+      ),
       Err(_) => obs.label("target:colliding:error"),
       Ok(got) if rewrite_is_a_document => {
         obs.label("target:colliding:rewritten");
@@ -740,7 +746,14 @@ fn check_frame_case(spec: &DocSpec, mutation: &FrameMut, obs: &mut Obs) -> Check
 /// The fixed small document that carries the padding of the oversize cases.
 fn padded_spec(pad: usize, where_: u8) -> DocSpec {
   let mut spec = template(1);
-  let padding = Value::String("a".repeat(pad));
+  // `pad` bytes of compact JSON: ASCII letters, two-byte characters, or characters that take an escape (`\"`);
+  // an odd remainder is one ASCII letter
+  let text = match (where_ / 3) % 3 {
+    0 => "a".repeat(pad),
+    1 => format!("{}{}", "é".repeat(pad / 2), "a".repeat(pad % 2)),
+    _ => format!("{}{}", "\"".repeat(pad / 2), "a".repeat(pad % 2)),
+  };
+  let padding = Value::String(text);
   match where_ % 3 {
     0 => spec.props.push(("padding".into(), padding)),
     1 => spec.meta.props.push(("padding".into(), padding)),
@@ -954,7 +967,7 @@ fn frame_grid() -> impl Iterator<Item = Case> {
 }
 
 fn oversize_grid() -> impl Iterator<Item = Case> {
-  (0..3u8).flat_map(|where_| {
+  (0..9u8).flat_map(|where_| {
     (65_520u32..=65_550)
       .chain([4_096, 32_768, 65_000, 66_000, 70_000, 131_071, 131_072, 131_073, 65_536 * 3 + 40, 1_000_000])
       .map(move |total| Case::Oversize { total, where_ })
@@ -1341,7 +1354,7 @@ fn bytes_strategy() -> impl Strategy<Value = Case> {
 }
 
 fn oversize_strategy() -> impl Strategy<Value = Case> {
-  (prop_oneof![3 => 65_000u32..=70_000, 1 => 60_000u32..300_000], 0u8..3).prop_map(|(total, where_)| Case::Oversize { total, where_ })
+  (prop_oneof![3 => 65_000u32..=70_000, 1 => 60_000u32..300_000], 0u8..9).prop_map(|(total, where_)| Case::Oversize { total, where_ })
 }
 
 pub fn run(ctx: &mut Ctx) {
